@@ -398,6 +398,8 @@ def _arg_axes(rng, c):
     c['cform'] = rng.choice(['list', 'ndarray'])
     if rng.random() < 0.15:
         c['scribble'] = True
+    if rng.random() < 0.5:
+        c['caller_mutates'] = True            # axis (j): after ~30% of the steps the caller edits an object it passed earlier
     return c
 
 
@@ -901,6 +903,20 @@ def impl_cache(case):
             r[...] = SENTINEL              # the caller overwrites the array it got back: no later result may change
             rec['scribbled'] = True
         return rec
+    import random as _random
+    rngm = _random.Random(repr(case['ops'])[:300])
+    probe = next((p_ for op_ in case['ops'] for p_ in _op_points(op_)), None)
+
+    def observers():
+        obs = []
+        for o_ in objs:
+            try:
+                obs.append(_norm_value(o_.eval(tuple(probe))) if probe is not None else None)
+            except Exception as e_:
+                obs.append(type(e_).__name__)
+            obs.append(sorted([[float(x) + 0.0 for x in kk], _norm_value(vv)] for kk, vv in zip(o_.get_f_dict_points(), o_.get_f_dict_values())))
+            obs.append(int(o_.output_length()))
+        return obs
     for op in case['ops']:
         k = op[0]
         f = objs[cur]
@@ -935,6 +951,31 @@ def impl_cache(case):
         changed = watch.check()
         if changed:
             rec['mutated'] = changed
+        if case.get('caller_mutates') and rngm.random() < 0.3:
+            # axis (j): the CALLER edits in place an object it passed earlier (without passing it again), then observes
+            cand = [it for it in watch.items if isinstance(it[1], (list, np.ndarray)) and len(it[1]) and
+                    (not isinstance(it[1], np.ndarray) or it[1].dtype.kind == 'f') and not isinstance(it[1][0], (list, tuple))]
+            if cand:
+                it = cand[rngm.randrange(len(cand))]
+                pre = observers()
+                old0 = it[1].flat[0] if isinstance(it[1], np.ndarray) else it[1][0]
+                if isinstance(it[1], np.ndarray):
+                    it[1].flat[0] = old0 + 1.0
+                else:
+                    it[1][0] = old0 + 1.0
+                post = observers()
+                if pre != post:
+                    rec['alias'] = {'argument': it[0], 'container': Watch.snap(it[1])[0], 'before': str(pre)[:200], 'after': str(post)[:200]}
+                if it[0].startswith('constructor-argument'):
+                    if isinstance(it[1], np.ndarray):
+                        it[1].flat[0] = old0          # the caller restores its sequence (the history goes on with the function of the case)
+                    else:
+                        it[1][0] = old0
+                else:
+                    for k_ in [k_ for k_, o_ in args.items() if o_ is it[1]]:
+                        del args[k_]                  # a point object the caller has edited is not handed over again
+                it[2] = Watch.snap(it[1])
+                rec['caller_mutated'] = it[0]
         rec['obj'] = cur
         rec['size_after'] = int(f.get_f_dict_size())
         rec['sizes'] = [int(o.get_f_dict_size()) for o in objs]
@@ -1413,6 +1454,11 @@ def oracle_cache(case, r):
         k = op[0]
         if k == 'obj':
             cur = int(op[1])
+        if i.get('alias'):
+            al = i['alias']
+            bad.append(('keeps-reference-to-caller-object', {'argument': al['argument'].split(':')[0].split('(')[0], 'cls': (al['argument'].split(':')[-1].split('.')[0] if ':' in al['argument'] else specs[cur]['cls'])},
+                        step, 'the caller edited in place an object it had passed earlier (%s, %s) and the observers changed: %s -> %s'
+                        % (al['argument'], al['container'], al['before'], al['after'])))
         if i.get('mutated'):
             m0 = i['mutated'][0]
             bad.append(('argument-mutated', {'op': k, 'argument': m0['argument'].split(':')[0].split('(')[0], 'container': m0['container']}, step,
@@ -1512,7 +1558,7 @@ def _same_failure(b, kind, sig):
     """Shrinking keeps the kind of the violation and the structural part of its signature (operation, caching state)."""
     if b[0] != kind:
         return False
-    return sig is None or all(b[1].get(k) == sig.get(k) for k in ('op', 'cache_on', 'exc', 'cls', 'other_object', 'result_of', 'read_by', 'argument'))
+    return sig is None or all(b[1].get(k) == sig.get(k) for k in ('cache_on', 'exc', 'cls', 'other_object', 'result_of', 'read_by', 'argument') + (() if kind == 'keeps-reference-to-caller-object' else ('op',)))
 
 
 def shrink_cache(case, kind, step, key=None, sig=None):
@@ -1644,6 +1690,8 @@ CORPUS_CACHE = [
     {'kind': 'cache', 'fn': {'cls': 'GenzDiscontinious', 'p': {'coeffs': [0.5, 0.25], 'border': [2.5, 2.5]}}, 'dim': 2,
      'ops': [['batch', [[1.0, 2.0], [2.0, 1.0], [3.0, 0.0]], 'int64'], ['single', [1.0, 2.0], 'int'], ['vec', [[-1.0, 2.0], [1.0, 1.0]], 'int32'],
              ['batch', [[1.0, 2.0], [0.5, 1.0]], 'mixed'], ['vec1', [2.0, 2.0], 'i32arr'], ['size']], 'pattern': 'dtype', 'cform': 'list'},
+    {'kind': 'cache', 'fn': {'cls': 'GenzGaussian', 'p': {'coeffs': [1.5], 'mid': [0.375]}}, 'dim': 1,
+     'ops': [['single', [0.625], 'tuple']] + [['size']] * 7, 'cform': 'ndarray', 'caller_mutates': True},
     # regression: batch then single hit, reset, repeated, size
     {'kind': 'cache', 'fn': {'cls': 'GenzCornerPeak', 'p': {'coeffs': [1.0, 2.0]}}, 'dim': 2,
      'ops': [['batch', [[0.5, 0.25], [1.0, 1.0], [0.5, 0.25]], 'tuple'], ['size'], ['single', [1.0, 1.0], 'tuple'], ['reset'], ['size'],
@@ -1757,9 +1805,10 @@ def gen_huge_cases(rng, gates):
     for k in range(8, 18):
         sizes.append((2 ** k + rng.choice([-1, 0, 1, 3, 1000]), '2^%d+r' % k))
     for name, gv in sorted(gates.items()):
-        for n_ in (gv + 1, gv + 3, 2 * gv + 1):
+        for n_ in ((gv + 1, gv + 3, 2 * gv + 1) if not name.startswith('source:') else (gv + 1,)):
             if n_ <= 2 ** 19:
                 sizes.append((n_, 'above ' + name))
+    sizes.append((2 ** 18 + 5, 'fixed: larger than every other case'))
     cases = []
     for j, (n, why) in enumerate(sizes):
         cls = HUGE_CLASSES[(j + rng.randrange(4)) % 4]
@@ -1810,6 +1859,18 @@ def oracle_huge(case, r):
 def check_huge_cases(chk):
     st, gates = run_impl(impl_scan_gates, [None])[0]
     gates = gates if st == 'ok' else {}
+    try:        # axis (k): numeric literals / 2**k / 1<<k / k*1024 in the SOURCE of the code path under test ($VERIF_REPO/sparseSpACE/Function.py)
+        from . import c02 as _c02
+        saved = _c02.GATE_SCOPE
+        _c02.GATE_SCOPE = {'sparseSpACE/Function.py': None}
+        try:
+            for g_, where_ in sorted(_c02.scan_gates().items()):
+                if g_ not in gates.values():
+                    gates['source:%s=%d' % (where_, g_)] = int(g_)
+        finally:
+            _c02.GATE_SCOPE = saved
+    except Exception as e_:
+        chk.notes.append('gate scan of the source failed: %r' % (e_,))
     chk.extra['numeric_class_attributes_and_module_constants_of_Function_py'] = gates
     cases = gen_huge_cases(chk.rng, gates)
     impl = run_impl(impl_huge, cases, limit=240)
@@ -1984,6 +2045,8 @@ def check_cache_cases(chk, cases):
             if kind in ('single-point-cache-off-raises', 'empty-batch-raises', 'declared-output-length-wrong') and len(specs) == 1:
                 pre = [['deact']] if kind == 'single-point-cache-off-raises' else []
                 fc = dict(c, ops=pre + [c['ops'][step]])
+            elif kind == 'keeps-reference-to-caller-object':
+                fc = dict(c, ops=c['ops'][:step + 1])          # the caller's edit depends on the step sequence: not shrunk
             else:
                 fc = shrink_cache(c, kind, step, key, sig)
             chk.violation('oracle:cache_transparent', kind, sig, fc, dict(step=step, detail=detail, op=str(c['ops'][step])[:300]))
